@@ -19,7 +19,8 @@ RULE = ('generated layer DAGs (<= 6 nodes, class and instance layers, adversaria
         'addresses) and of --layer option order, and again in a lane with another PYTHONHASHSEED. '
         'Oracle: identical sequence of "Running <layer> tests:" headers and --list-tests groups in '
         'all executions; unit layer first; no layer before a base that also owns tests; each layer '
-        'once. distinct = digest of DAG shape + names + owners; non-trivial = >= 3 layers own '
+        'once. One spec in five is a generated source tree run sequentially, listed and with -j N '
+        'layer children (header sequence of the relayed output: same order, each layer once). distinct = digest of DAG shape + names + owners; non-trivial = >= 3 layers own '
         'tests. The all-DAGs/all-namings half of the quantifier is only sampled')
 REAL_VS_STUB = {
     'real': 'Runner with found_suites, find_tests/tests_from_suite, Filter, ordered_layers, '
@@ -31,8 +32,75 @@ MODS = ['wpkg.layers', 'wpkg.layerz', 'm', 'zz.top', 'Wpkg.layers']
 UNIT = 'zope.testrunner.layer.UnitTests'
 
 
+def gen_world_spec(seed, rng):
+    """A generated source tree (worlds of the shared generator) run sequentially, listed, and with
+    layer children: the order and the once-and-contiguous rule must also hold when every layer
+    runs in its own process and the parent relays the output."""
+    from .. import world as W
+    p = W.profile(min_layers=2, max_layers=6, p_unit=0.2, max_modules=2, max_classes=4,
+                  max_tests=2, max_total_tests=10, p_prefix_names=0.3, p_punct_names=0.3)
+    world = W.gen_world(rng, p)
+    opt = {'v': rng.choice([0, 1, 2])}
+    if rng.random() < 0.2:
+        opt['shuffle_seed'] = rng.randint(0, 99)
+    return {'property': ID, 'seed': seed, 'kind': 'world', 'world': world, 'plan': [],
+            'opt': opt, 'modes': [{}, {'list': True}, {'j': rng.randint(2, 4)}],
+            'knobs': {'pipe_capacity': rng.choice([64, 4096, 65536])}, 'sched': {'prng': seed}}
+
+
+def run_world(spec, ctx):
+    from .. import truth as TR
+    from .. import world as W
+    src = W.materialise(spec['world'], ctx.scratch)
+    m = W.Model(spec['world'])
+    seqs = []
+    results = []
+    viols = []
+    for mode in spec['modes']:
+        opt = dict(spec['opt'], **mode)
+        res = core.execute(spec, W.argv(opt, src), label=repr(sorted(mode)))
+        results.append(res)
+        if res.raised or res.hang:
+            viols.append(C.viol('C10/run-aborted/%s' % _ws.frames_sig(res.raised),
+                                repr(res.raised or res.hang)))
+            continue
+        if mode.get('list'):
+            seq = [l for l, _ in C.parse_listing(res.text) if not l.endswith('.EmptyLayer')]
+        else:
+            seq = [l for l in C.RUNNING_RE.findall(res.text) if not l.endswith('.EmptyLayer')]
+        seqs.append((mode, seq))
+    if not viols and seqs:
+        ref = seqs[0][1]
+        for mode, seq in seqs:
+            tag = 'children' if mode.get('j') else ('list' if mode.get('list') else 'sequential')
+            if len(set(seq)) != len(seq):
+                viols.append(C.viol('C10/layer-run-twice/' + tag, repr(seq)))
+            elif seq != ref:
+                viols.append(C.viol('C10/order-depends-on/mode-' + tag,
+                                    '%s gives %r, sequential gives %r' % (tag, seq, ref)))
+        if UNIT in ref and ref[0] != UNIT:
+            viols.append(C.viol('C10/unit-layer-not-first', repr(ref)))
+        pos = {n: i for i, n in enumerate(ref)}
+        for a in pos:
+            for b in pos:
+                if a != b and UNIT not in (a, b) and m.is_base(m.short(a), m.short(b)) \
+                        and pos[a] > pos[b]:
+                    viols.append(C.viol('C10/layer-before-its-base',
+                                        '%s ran before its base %s: %r' % (b, a, ref)))
+        want = set(m.select({}))
+        if set(ref) != want:
+            viols.append(C.viol('C10/layers-missing-or-extra', 'ran %r, owners %r'
+                                % (ref, sorted(want))))
+    for r in results:
+        r.trace = []
+    return _ws.std_out(spec, ctx, results, viols, {'world_specs': 1},
+                       nontrivial=len(seqs and seqs[0][1]) >= 3)
+
+
 def gen(seed):
     rng = random.Random(seed)
+    if rng.random() < 0.2:
+        return gen_world_spec(seed, rng)
     n = rng.randint(2, 7)
     names = rng.sample(NAMES, n)
     layers = []
@@ -141,6 +209,8 @@ def build(spec, perm):
 
 
 def run(spec, ctx):
+    if spec.get('kind') == 'world':
+        return run_world(spec, ctx)
     idx = {L['id']: L for L in spec['layers']}
     fullname = {i: '%s.%s' % (L['module'], L['name']) for i, L in idx.items()}
     seqs = []
